@@ -47,43 +47,38 @@ theorem chunksOf_length (d : Bytes) : (chunksOf d).length = (d.length + (dataMax
 
 /-! ### frames -/
 
-theorem framesOfWrite_wf (data pad : Bytes) : ∀ f ∈ framesOfWrite data pad, f.WF := by
-  intro f hf
-  simp only [framesOfWrite, List.mem_map] at hf
-  obtain ⟨ch, hch, rfl⟩ := hf
-  exact chunksOf_wf data ch hch
+theorem framesOfWrite_wf (data : Bytes) : ∀ f ∈ framesOfWrite data, f.WF :=
+  fun f hf => chunksOf_wf data f hf
 
-theorem payload_framesOfWrite (data pad : Bytes) : payload (framesOfWrite data pad) = data := by
-  simp only [payload, framesOfWrite, List.map_map]
-  have : ((fun x : Fr => x.1) ∘ fun ch => (ch, pad)) = id := by funext ch; rfl
-  rw [this, List.map_id, chunksOf_flatten]
+theorem payload_framesOfWrite (data : Bytes) : payload (framesOfWrite data) = data :=
+  chunksOf_flatten data
 
 theorem payload_append (a b : List Fr) : payload (a ++ b) = payload a ++ payload b := by
   simp [payload]
 
 theorem payload_nil : payload [] = [] := rfl
 
-theorem payload_cons (f : Fr) (fs : List Fr) : payload (f :: fs) = f.1 ++ payload fs := by
+theorem payload_cons (f : Fr) (fs : List Fr) : payload (f :: fs) = f ++ payload fs := by
   simp [payload]
 
 theorem framesOfWrites_nil : framesOfWrites [] = [] := rfl
 
-theorem framesOfWrites_cons (w : Bytes × Bytes) (ws : List (Bytes × Bytes)) :
-    framesOfWrites (w :: ws) = framesOfWrite w.1 w.2 ++ framesOfWrites ws := by
+theorem framesOfWrites_cons (w : Bytes) (ws : List Bytes) :
+    framesOfWrites (w :: ws) = framesOfWrite w ++ framesOfWrites ws := by
   simp [framesOfWrites]
 
-theorem framesOfWrites_wf (ws : List (Bytes × Bytes)) : ∀ f ∈ framesOfWrites ws, f.WF := by
+theorem framesOfWrites_wf (ws : List Bytes) : ∀ f ∈ framesOfWrites ws, f.WF := by
   induction ws with
   | nil => intro f hf; simp [framesOfWrites] at hf
   | cons w ws ih =>
     intro f hf
     rw [framesOfWrites_cons] at hf
     rcases List.mem_append.1 hf with h | h
-    · exact framesOfWrite_wf _ _ f h
+    · exact framesOfWrite_wf _ f h
     · exact ih f h
 
-theorem payload_framesOfWrites (ws : List (Bytes × Bytes)) :
-    payload (framesOfWrites ws) = (ws.map (·.1)).flatten := by
+theorem payload_framesOfWrites (ws : List Bytes) :
+    payload (framesOfWrites ws) = ws.flatten := by
   induction ws with
   | nil => rfl
   | cons w ws ih =>
@@ -100,15 +95,15 @@ theorem sealAll_append (A : AEAD) (k : Bytes) (c : Nat) (a b : List Fr) :
 
 /-! ### Write -/
 
-theorem writeFrames_spec (A : AEAD) (pad : Bytes) (chunks : List Bytes) (sc : SC) (wire : Bytes)
+theorem writeFrames_spec (A : AEAD) (chunks : List Bytes) (sc : SC) (wire : Bytes)
     (n c : Nat) (hn : sc.sendNonce = nonceOf c) (hroom : c + chunks.length ≤ maxUint64) :
-    writeFrames A pad chunks sc wire n =
+    writeFrames A chunks sc wire n =
       ⟨{ sc with sendNonce := nonceOf (c + chunks.length) },
-       wire ++ sealAll A sc.sendKey c (chunks.map fun ch => (ch, pad)),
+       wire ++ sealAll A sc.sendKey c chunks,
        n + chunks.flatten.length, false⟩ := by
   induction chunks generalizing sc wire n c with
   | nil =>
-    simp only [writeFrames, List.length_nil, Nat.add_zero, List.map_nil, sealAll, List.append_nil,
+    simp only [writeFrames, List.length_nil, Nat.add_zero, sealAll, List.append_nil,
       List.flatten_nil]
     rw [← hn]
   | cons ch rest ih =>
@@ -116,25 +111,24 @@ theorem writeFrames_spec (A : AEAD) (pad : Bytes) (chunks : List Bytes) (sc : SC
     have hlt : c < maxUint64 := by omega
     simp only [writeFrames, hn, incrNonce_nonceOf c hlt]
     rw [ih { sc with sendNonce := nonceOf (c + 1) } _ _ (c + 1) rfl (by omega)]
-    simp only [List.length_cons, List.map_cons, sealAll, sealedAt, List.flatten_cons, List.length_append,
+    simp only [List.length_cons, sealAll, sealedAt, List.flatten_cons, List.length_append,
       List.append_assoc, WriteOut.mk.injEq, and_true]
     refine ⟨?_, ?_⟩
     · rw [show c + 1 + rest.length = c + (rest.length + 1) by omega]
     · exact ⟨trivial, Nat.add_assoc _ _ _⟩
 
-theorem write_spec (A : AEAD) (pad : Bytes) (sc : SC) (data : Bytes) (c : Nat)
+theorem write_spec (A : AEAD) (sc : SC) (data : Bytes) (c : Nat)
     (hn : sc.sendNonce = nonceOf c) (hroom : c + (chunksOf data).length ≤ maxUint64) :
-    write A pad sc data =
+    write A sc data =
       ⟨{ sc with sendNonce := nonceOf (c + (chunksOf data).length) },
-       sealAll A sc.sendKey c (framesOfWrite data pad), data.length, false⟩ := by
+       sealAll A sc.sendKey c (framesOfWrite data), data.length, false⟩ := by
   unfold write
-  rw [writeFrames_spec A pad (chunksOf data) sc [] 0 c hn hroom]
+  rw [writeFrames_spec A (chunksOf data) sc [] 0 c hn hroom]
   simp [framesOfWrite, chunksOf_flatten]
 
-theorem framesOfWrite_length (data pad : Bytes) : (framesOfWrite data pad).length = (chunksOf data).length := by
-  simp [framesOfWrite]
+theorem framesOfWrite_length (data : Bytes) : (framesOfWrite data).length = (chunksOf data).length := rfl
 
-theorem writeMany_spec (A : AEAD) (ws : List (Bytes × Bytes)) (sc : SC) (c : Nat)
+theorem writeMany_spec (A : AEAD) (ws : List Bytes) (sc : SC) (c : Nat)
     (hn : sc.sendNonce = nonceOf c) (hroom : c + (framesOfWrites ws).length ≤ maxUint64) :
     writeMany A sc ws =
       ({ sc with sendNonce := nonceOf (c + (framesOfWrites ws).length) },
@@ -143,12 +137,11 @@ theorem writeMany_spec (A : AEAD) (ws : List (Bytes × Bytes)) (sc : SC) (c : Na
   | nil =>
     simp only [writeMany, framesOfWrites_nil, List.length_nil, Nat.add_zero, sealAll]
     rw [← hn]
-  | cons w ws ih =>
-    obtain ⟨data, pad⟩ := w
+  | cons data ws ih =>
     rw [framesOfWrites_cons, List.length_append, framesOfWrite_length] at hroom
     have hroom' : c + ((chunksOf data).length + (framesOfWrites ws).length) ≤ maxUint64 := hroom
     simp only [writeMany]
-    rw [write_spec A pad sc data c hn (by omega)]
+    rw [write_spec A sc data c hn (by omega)]
     simp only [Bool.false_eq_true, if_false]
     rw [ih { sc with sendNonce := nonceOf (c + (chunksOf data).length) } (c + (chunksOf data).length) rfl
       (by omega)]
